@@ -59,7 +59,7 @@ func init() {
 		},
 		Deadline: func(tier string) int {
 			if tier == "thorough" {
-				return 2400
+				return 1000
 			}
 			return 300
 		},
